@@ -43,12 +43,104 @@ Definition process_output_unfixed (pb : option pbuilder) (pre : str -> bool -> o
   let m1 := fold_left upsert (pass pb pre false (sort_str non_ignored) 0) [] in
   fold_left upsert (pass pb pre true (sort_str ignored) 0) m1.
 
+(* the names each pass calls filter_match on, in call order: [false] = the non-ignored pass
+   (sorted first listing minus the names of the ignored listing), [true] = the ignored pass *)
+Definition first_pass_names (non_ignored ignored : list str) : list str :=
+  filter (fun nm => negb (mem_str nm (sort_str ignored))) (sort_str non_ignored).
+Definition class_names (ign : bool) (non_ignored ignored : list str) : list str :=
+  if ign then sort_str ignored else first_pass_names non_ignored ignored.
+
+(* NOT what nextest does: one count partitioner shared by the two passes (the counter of the
+   ignored pass continues where the non-ignored pass stopped). Kept only so that closed Examples
+   can show that the whole-listing theorems distinguish it from [process_output]. *)
+Fixpoint pass_end (pb : option pbuilder) (pre : str -> bool -> option mismatch) (ign : bool)
+         (names : list str) (cur : N) : N :=
+  match names with
+  | [] => cur
+  | nm :: rest => pass_end pb pre ign rest (snd (filter_match (pre nm ign) pb cur nm))
+  end.
+Definition process_output_shared (pb : option pbuilder) (pre : str -> bool -> option mismatch)
+           (non_ignored ignored : list str) : list tcase :=
+  let ign_sorted := sort_str ignored in
+  let first := first_pass_names non_ignored ignored in
+  let m1 := fold_left upsert (pass pb pre false first 0) [] in
+  fold_left upsert (pass pb pre true ign_sorted (pass_end pb pre false first 0)) m1.
+
 (* parse_shards validation: 1 <= m <= n *)
 Definition valid_shards (m n : N) : bool := (1 <=? m) && (m <=? n).
+
+(* ---- PartitionerBuilder::from_str / parse_shards (nextest-runner/src/partition.rs) on a string
+   of Unicode scalar values. u64::from_str: an optional single '+', then one or more ASCII
+   digits, value < 2^64; nothing else (no '-', no blanks, no '_'). *)
+Definition digit_val (c : N) : option N :=
+  if (48 <=? c) && (c <=? 57) then Some (c - 48) else None.
+Fixpoint parse_digits (l : str) (acc : N) : option N :=
+  match l with
+  | [] => Some acc
+  | c :: l' => match digit_val c with
+               | Some d => parse_digits l' (acc * 10 + d)
+               | None => None
+               end
+  end.
+Definition parse_u64 (s : str) : option N :=
+  let body := match s with 43 :: r => r | _ => s end in
+  match body with
+  | [] => None
+  | _ => match parse_digits body 0 with
+         | Some v => if v <? M64 then Some v else None
+         | None => None
+         end
+  end.
+(* input.splitn(2, '/'): the part before the first '/' and everything after it *)
+Fixpoint split_slash (s : str) : option (str * str) :=
+  match s with
+  | [] => None
+  | c :: r => if c =? 47 then Some ([], r)
+              else match split_slash r with
+                   | Some (a, b) => Some (c :: a, b)
+                   | None => None
+                   end
+  end.
+Definition parse_shards (s : str) : option (N * N) :=
+  match split_slash s with
+  | None => None
+  | Some (a, b) =>
+      match parse_u64 a, parse_u64 b with
+      | Some m, Some n => if valid_shards m n then Some (m, n) else None
+      | _, _ => None
+      end
+  end.
+Fixpoint strip_prefix (p s : str) : option str :=
+  match p, s with
+  | [], _ => Some s
+  | x :: p', y :: s' => if x =? y then strip_prefix p' s' else None
+  | _ :: _, [] => None
+  end.
+Definition s_hash_colon : str := [104; 97; 115; 104; 58].            (* hash: *)
+Definition s_count_colon : str := [99; 111; 117; 110; 116; 58].       (* count: *)
+Definition parse_partition (s : str) : option pbuilder :=
+  match strip_prefix s_hash_colon s with
+  | Some r => match parse_shards r with
+              | Some (m, n) => Some {| pb_kind := PHash; pb_shard := m; pb_total := n |}
+              | None => None
+              end
+  | None =>
+      match strip_prefix s_count_colon s with
+      | Some r => match parse_shards r with
+                  | Some (m, n) => Some {| pb_kind := PCount; pb_shard := m; pb_total := n |}
+                  | None => None
+                  end
+      | None => None
+      end
+  end.
 
 (* specification-side helpers *)
 Definition matched (l : list tcase) : list str :=
   map fst (filter (fun e => match snd (snd e) with Matches => true | _ => false end) l).
+(* the selected names whose ignored flag is [ign] *)
+Definition matched_class (ign : bool) (l : list tcase) : list str :=
+  map fst (filter (fun e => match snd (snd e) with Matches => Bool.eqb (fst (snd e)) ign
+                                                | _ => false end) l).
 
 (* elements of l at 0-based positions congruent to k modulo n, starting the count at [i] *)
 Fixpoint stride_from (i k n : N) (l : list str) : list str :=
